@@ -1,16 +1,10 @@
-// drv_matmul: row-major band matrices (see drv_matmul.h)
+// drv_matmul: triangular special matrices (see drv_matmul.h)
 #include "drv_matmul.h"
 namespace mm {
-#define COMMA ,
-#define S_CASE(TAG, ENG) if (h[2] == TAG) { if (act) build_S1<ENG, true>(s, v); else build_S1<ENG, false>(s, v); return true; }
-bool build_group_band_r(const Spec& s, XVisitor& v) {
-  const Words& h = s.head;
-  if (h[0] != "S") return false;
-  if (h.size() < 4 || (h[1] != "a" && h[1] != "p")) throw BadOp();
-  bool act = h[1] == "a";
-  S_CASE("b00", BandEngine<ROW_MAJOR COMMA 0 COMMA 0>) S_CASE("b11", BandEngine<ROW_MAJOR COMMA 1 COMMA 1>)
-  S_CASE("b22", BandEngine<ROW_MAJOR COMMA 2 COMMA 2>) S_CASE("b20", BandEngine<ROW_MAJOR COMMA 2 COMMA 0>)
-  S_CASE("b02", BandEngine<ROW_MAJOR COMMA 0 COMMA 2>) S_CASE("b12", BandEngine<ROW_MAJOR COMMA 1 COMMA 2>)
+bool build_group_s3(const Spec& s, XVisitor& v) {
+  S_GROUP_HEAD
+  S_PA("lo", LowerEngine<ROW_MAJOR>, 1) S_P("loc", LowerEngine<COL_MAJOR>, 0)
+  S_PA("up", UpperEngine<ROW_MAJOR>, 0) S_P("upc", UpperEngine<COL_MAJOR>, 0)
   return false;
 }
 }
